@@ -209,7 +209,7 @@ def bounded(tier, seed):
     from aioquic.quic.connection import stream_is_unidirectional, stream_is_client_initiated
 
     b = Bounded()
-    depth = 4 if tier == "quick" else 6
+    depth = 4 if tier == "quick" else 5   # 12^5 = 248 832 sequences (12^6 would be 3 million)
     b.rule = ("event sequences over {data/fin/reset} x {client streams 0 (bidi), 2 (uni), server streams 1 (bidi), 3 (uni)} fed to the real RawQuicLayer(force_raw=True); "
               "checked: every SendQuicStreamData/Reset goes to the other connection on a stream of the same directionality, one peer stream per stream, allocated ids unique with correct bits; "
               "distinct = sequence; non-trivial = at least two different streams")
